@@ -8,8 +8,9 @@
    controllers; late subscriber; shutdown while paused) with stage-shaped workers, every call under a watchdog.
 3. TLC validates the recording against C14_Mon (the statement) and TraceC14 (Pause.tla, internal steps
    interleaved by TLC).
-The stage workers' own side of the protocol (blocking on ResumeCh at shutdown) is exercised by the
-pipeline-level checks (C03).
+4. The stage workers' own side of the protocol: the real pipeline is paused mid-crawl (every worker of the four
+   stages must acknowledge, none may take work while the pause lasts), then resumed (every seed still finishes) or
+   stopped while paused (Stop returns) - judged by C14P_Mon.
 """
 import os
 
@@ -31,11 +32,25 @@ def run(ctx):
         trans += r.generated
     ctx.build_harness()
     tpath = os.path.join(ctx.scratch, "c14.ndjson")
+    died = False
+    if ctx.replay and any('"c14.pause.call"' in ln for ln in open(ctx.replay)):
+        pm = ctx.validate("C14P_Mon", "C14P_mon.cfg", ctx.replay, name="pmon-replay")
+        pev = vf.read_ndjson(ctx.replay)
+        for v in pm["viols"]:
+            ctx.report("%s (pipeline replay)" % v["why"], replay_src=ctx.replay, tag="pipe", key="pipeline: " + v["why"])
+        ctx.cov.update({"states": states, "transitions": trans, "traces_validated_against_impl": 1, "samples": ["replay of a pipeline pause run, %d events" % len(pev)]})
+        return
     if ctx.replay:
         tpath = ctx.replay
     else:
-        ctx.run_bin("unit-verif", ["c14", tpath, "80" if quick else "1200"], timeout=3000)
+        p = ctx.run_bin("unit-verif", ["c14", tpath, "80" if quick else "1200"], timeout=3000, check=False)
+        died = p.returncode != 0
     events = vf.read_ndjson(tpath)
+    if not ctx.replay and died:
+        # a call that stays blocked keeps the manager's mutex; once the driver has moved on the Go runtime may kill
+        # the process (unlock of a fresh mutex).  What was recorded until then is judged; if it shows nothing the
+        # death of the driver itself is the finding to look at.
+        ctx.log("driver exited %d after %d events: %s" % (p.returncode, len(events), " ".join(p.stderr.split())[:200]))
     mon = ctx.validate("C14_Mon", "C14_mon.cfg", tpath, name="mon")
     if mon["hwm"] < mon["total"]:
         raise vf.Inconclusive("C14_Mon stopped at line %d of %d" % (mon["hwm"], mon["total"]))
@@ -48,6 +63,8 @@ def run(ctx):
         k = kinds.get(sc, {})
         ctx.report("%s (scenario %s kind=%s late=%s, event %s)" % (v["why"], sc, k.get("kind"), k.get("late"), {a: e[a] for a in e if a not in ("seq", "ws")}),
                    replay_src=rp, tag="sc", key="%s kind=%s late=%s" % (v["why"], k.get("kind"), k.get("late")))
+    if died and not ctx.violations:
+        raise vf.Inconclusive("driver died (exit %d) and the recorded events show no violation" % p.returncode)
     # ImplSpec binding; scenarios with a stuck call cannot be behaviours of the repaired model and are skipped after reporting
     bad = {e["sc"] for e in events if e["ev"] in ("stuck", "wstuck")}
     ipath = os.path.join(ctx.scratch, "impl.ndjson")
@@ -63,17 +80,46 @@ def run(ctx):
     except vf.Inconclusive as ex:
         impl_ok = False
         ctx.note_drift("ImplSpec validation inconclusive: %s" % str(ex)[:200])
+    # the real stage workers: pause mid-crawl, hold, resume or stop
+    npipe = 0
+    if not ctx.replay:
+        import subprocess
+        from c01 import pipeline
+        ctx.build_harness(("zeno-verif",))
+        cases = [(2, 3, "resume"), (1, 2, "stop"), (3, 5, "stop")] if quick else \
+                [(w, k, m) for w in (1, 2, 3) for k in (1, 3, 8) for m in ("resume", "stop")]
+        procs = [(c, pipeline(ctx, "p%d-%d-%s" % c, "c14", list(c))) for c in cases]
+        for c, (p, t, d) in procs:
+            try:
+                out, err = p.communicate(timeout=600)
+            except subprocess.TimeoutExpired:
+                p.kill()
+                raise vf.Inconclusive("pipeline run timed out")
+            subprocess.run(["rm", "-rf", d])
+            pev = vf.read_ndjson(t)
+            npipe += 1
+            if not any(e["ev"] == "run.end" for e in pev):
+                if any(e["ev"] == "stop.stuck" for e in pev) or any(e["ev"] == "c14.settled" for e in pev):
+                    pass  # judged below
+                else:
+                    raise vf.Inconclusive("pipeline run %s ended early: %s" % (c, " ".join((err or "").split())[-300:]))
+            pm = ctx.validate("C14P_Mon", "C14P_mon.cfg", t, name="pmon-%d-%d-%s" % c)
+            if pm["hwm"] < pm["total"]:
+                raise vf.Inconclusive("C14P_Mon stopped at line %d of %d" % (pm["hwm"], pm["total"]))
+            for v in pm["viols"]:
+                e = pev[v["l"] - 1]
+                ctx.report("%s (pipeline, workers=%d k=%d %s, event %s)" % ((v["why"],) + c + ({a: e[a] for a in e if a not in ("seq", "us", "tree")},)), replay_src=t, tag="pipe", key="pipeline: " + v["why"])
     calls = sum(1 for e in events if e["ev"] == "call")
     ctx.cov.update({
         "states": states, "transitions": trans, "exhaustive": True,
-        "traces_validated_against_impl": len(kinds),
+        "traces_validated_against_impl": len(kinds) + npipe,
         "evaluations": len(events), "distinct_nontrivial": calls,
         "rule": "events of scripted pause/resume scenarios on the real pause manager; non-trivial = controller calls; kinds: %s" % sorted({k["kind"] for k in kinds.values()}),
         "impl_spec_accepted": impl_ok,
         "samples": [[{a: e[a] for a in e if a != "seq"} for e in events if e.get("sc") == 1 and e["ev"] != "take"][:14]],
     })
     ctx.assumptions += [
-        "workers in this check are harness goroutines shaped like the stage workers (the real stage workers are exercised in C03)",
+        "part 2 uses harness goroutines shaped like the stage workers; part 4 uses the real stage workers",
         "a call that has not returned after 1.5 s is counted as blocked forever; workers work 1-3 ms per item",
         "snapshots are taken after work stopped being offered for 20 ms",
     ]
